@@ -348,19 +348,23 @@ theorem hostnameView_append (a x : Str) (ha : '%' ∉ a) :
   rw [splitFirst_append_left_s20 a x '%' ha]
   simp [lower_append]
 
-/-- the second pass on a host led by a language label -/
-theorem stripLang_seen {isCC : Str → Bool} (hcc : CcLaws isCC) {w : Str} (hw : LangShape isCC w) (R : Str) :
-    stripLangSubdomainsFromHostname isCC (hostnameView (lower w ++ '.' :: R)) =
-      if 1 ≤ countDots (hostnameView R) then hostnameView R else lower w ++ '.' :: hostnameView R := by
+theorem hostnameView_label {isCC : Str → Bool} (hcc : CcLaws isCC) {w : Str} (hw : LangShape isCC w) (R : Str) :
+    hostnameView (lower w ++ '.' :: R) = lower w ++ '.' :: hostnameView R := by
   have hlw := langShape_lower hcc hw
   have hpc : '%' ∉ lower w ++ ['.'] := by
     simp only [List.mem_append, List.mem_cons, List.not_mem_nil, or_false, not_or]
     exact ⟨shape_not_mem hcc hlw '%' (by decide), by decide⟩
   have e : lower w ++ '.' :: R = (lower w ++ ['.']) ++ R := by simp
   rw [e, hostnameView_append _ _ hpc, lower_append, lower_idem]
-  have e2 : lower w ++ lower ['.'] ++ hostnameView R = lower w ++ '.' :: hostnameView R := by
-    simp [lower]; decide
-  rw [e2, stripLang_spec isCC _ _ (shape_not_mem hcc hlw '.' (by decide)), isLangLabel_of_shape hcc hlw]
+  simp [lower]; decide
+
+/-- the second pass on a host led by a language label -/
+theorem stripLang_seen {isCC : Str → Bool} (hcc : CcLaws isCC) {w : Str} (hw : LangShape isCC w) (R : Str) :
+    stripLangSubdomainsFromHostname isCC (hostnameView (lower w ++ '.' :: R)) =
+      if 1 ≤ countDots (hostnameView R) then hostnameView R else lower w ++ '.' :: hostnameView R := by
+  have hlw := langShape_lower hcc hw
+  rw [hostnameView_label hcc hw, stripLang_spec isCC _ _ (shape_not_mem hcc hlw '.' (by decide)),
+    isLangLabel_of_shape hcc hlw]
   simp
 
 end Ural.Fingerprint
